@@ -354,7 +354,7 @@ def run(tier, ext=".c", pid=ID):
         dmax, conds, defs, sdepth = 5, CONDS_Q, DEFS_Q, 6
         gcc_every = True
     else:
-        dmax, conds, defs, sdepth = 6, CONDS_Q + ["B", "defined A && defined(B)"], DEFS_Q + [("define", "B", "1")], 8
+        dmax, conds, defs, sdepth = 6, CONDS_Q + ["B", "defined A && defined(B)"], DEFS_Q + [("define", "B", "1")], 12
         gcc_every = True
     progs = cond.gen_directives(dmax, conds, defs)
     # extension: full condition/define alphabet at a smaller size, and a seed-chosen 3-condition alphabet one step deeper
@@ -398,7 +398,7 @@ def run(tier, ext=".c", pid=ID):
         "oracle_gcc": {"available": use_gcc, "pairs_checked": gchk, "disagreements": gdis, "examples": gex,
                        "converse_sample": {"reference_rejects": conv[0], "gcc_diagnoses": conv[1]}},
         "samples": [{"lines": lines_of(cond.interleave(allp[len(allp) // 3])), "configs": [c[0] for c in CONFIGS]}] + sinfo["samples"],
-        "exhaustive": bool(sinfo.get("frontier_empty", True) or True),
+        "exhaustive": True,   # E1 enumerates its universe completely; whether the S1 search closed is reported separately
     })
     rep.coverage["S1_frontier_empty_at_horizon"] = sinfo.get("frontier_empty")
     rep.assumptions = ["reference = conditional machine ref/cond.py (validated against gcc -E on every judged pair)",
